@@ -1,13 +1,370 @@
-import Uflow.Model.Endpoint
+import Uflow.Lemmas.EndpointEventsExamples
+import Uflow.Lemmas.EndpointEventsBudget
 
-/-! # C09 (theorems on the endpoint model are being added) -/
+/-!
+# C09 — disconnect: retry budget and flush gate
+
+Model: `Uflow.Endpoint` (`Uflow/Model/Endpoint.lean`); every theorem holds for every half connection
+`hc : HC H`. Helper lemmas: `Uflow/Lemmas/EndpointClient*.lean`, `Uflow/Lemmas/EndpointEvents*.lean`.
+
+Vocabulary (lemma files): `discGate hc sig h` — the condition of `step_if_active` for sending the
+disconnect request: `sig = some .now`, or `sig = some .flush` and `hc.isSendPending h = false`;
+`CState.isClosing`, `CState.terminal` (`closed` or `fin`); `c.nowMs nowNs` the clock of a step.
+-/
 
 namespace Uflow.Props.C09
 
-open Uflow.Endpoint
+open Uflow.Endpoint Uflow.Codec Uflow.Gen Uflow.HalfConn
+
+variable {H : Type}
 
 /-- `u32` (the model of `.min(u32::MAX as usize) as u32`) fits 32 bits. -/
 theorem C09_u32_lt (x : Nat) : u32 x < 2^32 := by
   unfold u32; omega
+
+/-! ## Client -/
+
+/-- The gate, spelled out. -/
+theorem C09_discGate_iff (hc : HC H) (sig : Option DisconnectMode) (h : H) :
+    discGate hc sig h = true ↔ sig = some .now ∨ (sig = some .flush ∧ hc.isSendPending h = false) := by
+  unfold discGate
+  cases sig with
+  | none => simp
+  | some m => cases m <;> simp
+
+/-- `C09_flush_gate` (client): a step that ends in `closing` without having started there went through
+the gate: after the timers of that step the connection was `active` with `signal = some .now`, or
+`signal = some .flush ∧ isSendPending = false`; the packets the half connection could deliver at that
+moment (`hc.receive`) are the last events of the step (appended before the state changed); the state is
+`closing discReq (now + 2000) 10` and the disconnect request is the last datagram sent. -/
+theorem C09_flush_gate_client (hc : HC H) (c c' : Client H) (nowNs : Nat) (arrivals sent : List (List Nat))
+    (evs : List CEvent) (h : c.step hc nowNs arrivals = .ok (c', sent, evs))
+    (hnc : ¬ c.state.isClosing) (hcl : c'.state.isClosing) :
+    ∃ (c3 : Client H) (ln : Nat) (hh : H) (t : Nat) (sig : Option DisconnectMode) (h' : H) (pkts pre : List (List Nat)),
+      c3.state = .active ln hh t sig ∧
+      (sig = some .now ∨ (sig = some .flush ∧ hc.isSendPending hh = false)) ∧
+      hc.receive hh = .ok (h', pkts) ∧ evs = c3.eventsOut ++ pkts.map CEvent.receive ∧
+      c'.state = .closing discReq (c.nowMs nowNs + CLIENT_DISCONNECT_RESEND_INTERVAL_MS) CLIENT_DISCONNECT_RESEND_COUNT ∧
+      sent = pre ++ [discReq] := by
+  obtain ⟨c3, ln, hh, t, sig, h', pkts, pre, h1, h2, h3, h4, h5, h6⟩ :=
+    Client.step_enters_closing hc c c' nowNs arrivals sent evs h hnc hcl
+  exact ⟨c3, ln, hh, t, sig, h', pkts, pre, h1, (C09_discGate_iff hc sig hh).mp h2, h3, h4, h5, h6⟩
+
+/-- … and `closing` is entered by no API call other than `step` (`send`, `disconnect`, `flush` never
+send the request). -/
+theorem C09_only_step_enters_closing (hc : HC H) (c c' : Client H) (op : COp) (sent : List (List Nat))
+    (evs : List CEvent) (h : c.apply hc op = .ok (c', sent, evs))
+    (hnc : ¬ c.state.isClosing) (hcl : c'.state.isClosing) : ∃ n a, op = .step n a :=
+  Client.apply_enters_closing hc c c' op sent evs h hnc hcl
+
+/-- The gate from the inputs: a step from `active` either times out, or is closed by the peer, or —
+exactly when the gate holds for the half connection as left by the arrivals — sends the request as its
+last datagram and delivers what `hc.receive` returns, or stays `active` (gate false). -/
+theorem C09_flush_gate_client_active (hc : HC H) (c c' : Client H) (nowNs : Nat) (arrivals sent : List (List Nat))
+    (evs : List CEvent) (ln : Nat) (hh : H) (t : Nat) (sig : Option DisconnectMode)
+    (hs : c.state = .active ln hh t sig) (he : c.eventsOut = [])
+    (h : c.step hc nowNs arrivals = .ok (c', sent, evs)) :
+    (c'.state = .fin ∧ evs = [CEvent.error .timeout]) ∨
+    (∃ h2 h3 pkts pre, discGate hc sig h2 = true ∧ hc.receive h2 = .ok (h3, pkts) ∧
+      c'.state = .closing discReq (c.nowMs nowNs + CLIENT_DISCONNECT_RESEND_INTERVAL_MS) CLIENT_DISCONNECT_RESEND_COUNT ∧
+      evs = pkts.map CEvent.receive ∧ sent = pre ++ [discReq]) ∨
+    (∃ h2 h3 h4 pkts, discGate hc sig h2 = false ∧ hc.step h2 nowNs = .ok h3 ∧ hc.receive h3 = .ok (h4, pkts) ∧
+      c'.state = .active ln h4 (c.deadlineAfter (c.nowMs nowNs) t arrivals) sig ∧ evs = pkts.map CEvent.receive) ∨
+    (c'.state.terminal ∧ ∃ pkts : List (List Nat), evs = pkts.map CEvent.receive ++ [CEvent.disconnect]) := by
+  obtain ⟨-, hcase⟩ := Client.step_active hc c c' nowNs arrivals sent evs ln hh t sig hs he h
+  rcases hcase with ⟨_, _, h3, h4⟩ | ⟨_, _, hx⟩ | ⟨_, _, hx⟩ | ⟨_, hx⟩
+  · exact Or.inl ⟨h3, h4⟩
+  · exact Or.inr (Or.inl hx)
+  · exact Or.inr (Or.inr (Or.inl hx))
+  · exact Or.inr (Or.inr (Or.inr hx))
+
+/-- `C09_retry_budget` (client), general form: any run from `closing req rt rc` (empty event buffer)
+sends `k ≤ rc` further copies of the request followed only by `disconnectAck` replies, and
+* either nothing has been delivered yet and the client is still `closing` with `rc - k` retries left, or
+* exactly one `disconnect` was delivered (ack or crossing request) and the client is `closed`/`fin`, or
+* exactly one `error timeout` was delivered, after exactly `rc` re-sends, the client is `fin`, and some
+  step of the run had its clock `≥ rt + 2000 * rc`.
+The event list of the whole run has at most one element: nothing is delivered afterwards. -/
+theorem C09_retry_budget_client (hc : HC H) (ops : List COp) (c c' : Client H) (sent : List (List Nat))
+    (evs : List CEvent) (req : List Nat) (rt rc : Nat) (hs : c.state = .closing req rt rc) (he : c.eventsOut = [])
+    (h : Client.run hc c ops = .ok (c', sent, evs)) :
+    ∃ k acks, sent = List.replicate k req ++ acks ∧ k ≤ rc ∧ (∀ b ∈ acks, b = discAck) ∧
+      ((evs = [] ∧ acks = [] ∧ ∃ rt', c'.state = .closing req rt' (rc - k) ∧
+          rt' ≥ rt + CLIENT_DISCONNECT_RESEND_INTERVAL_MS * k) ∨
+       (evs = [CEvent.disconnect] ∧ c'.state.terminal) ∨
+       (evs = [CEvent.error .timeout] ∧ k = rc ∧ acks = [] ∧ c'.state = .fin ∧
+          ∃ n a, COp.step n a ∈ ops ∧ c.nowMs n ≥ rt + CLIENT_DISCONNECT_RESEND_INTERVAL_MS * rc)) :=
+  Client.run_closing hc ops c c' sent evs req rt rc hs he h
+
+/-- `C09_retry_budget` (client), from the moment of entering `closing` at clock `t0` (the entering step
+has sent the request once, `C09_flush_gate_client`): at most 10 more copies, i.e. `1 + 10` in total;
+`error timeout` only after all 10 and not before `t0 + 22000` ms. -/
+theorem C09_retry_budget_client_entered (hc : HC H) (ops : List COp) (c c' : Client H) (sent : List (List Nat))
+    (evs : List CEvent) (t0 : Nat)
+    (hs : c.state = .closing discReq (t0 + CLIENT_DISCONNECT_RESEND_INTERVAL_MS) CLIENT_DISCONNECT_RESEND_COUNT)
+    (he : c.eventsOut = []) (h : Client.run hc c ops = .ok (c', sent, evs)) :
+    ∃ k acks, sent = List.replicate k discReq ++ acks ∧ k ≤ 10 ∧ (∀ b ∈ acks, b = discAck) ∧
+      (evs = [] ∨ evs = [CEvent.disconnect] ∨ evs = [CEvent.error .timeout]) ∧
+      (evs = [CEvent.error .timeout] → k = 10 ∧ acks = [] ∧ c'.state = .fin ∧
+        ∃ n a, COp.step n a ∈ ops ∧ c.nowMs n ≥ t0 + 22000) := by
+  obtain ⟨k, acks, h1, h2, h3, hcase⟩ := Client.run_closing hc ops c c' sent evs _ _ _ hs he h
+  refine ⟨k, acks, h1, h2, h3, ?_, ?_⟩
+  · rcases hcase with ⟨hx, _⟩ | ⟨hx, _⟩ | ⟨hx, _⟩
+    · exact Or.inl hx
+    · exact Or.inr (Or.inl hx)
+    · exact Or.inr (Or.inr hx)
+  · intro hev
+    rcases hcase with ⟨hx, _⟩ | ⟨hx, _⟩ | ⟨_, x2, x3, x4, n, a, hm, hn⟩
+    · rw [hx] at hev; cases hev
+    · rw [hx] at hev; cases hev
+    · exact ⟨x2, x3, x4, n, a, hm, ge_22000_of_ge hn⟩
+
+/-! ### Non-vacuity (client) -/
+
+/-- Flush gate: with something queued (`echoHC` reports send-pending until `receive` drains… here: while
+its queue is non-empty) a `flush` disconnect does not fire; a `now` disconnect does. -/
+example : okAnd (Client.run echoHC exClientE [.step 1000000 [exSynAck], .send [5] 0 .reliable, .disconnect .flush, .step 2000000 []])
+    (fun r => match r.1.state with | .closing .. => false | _ => true) = true := by decide +kernel
+
+example : okAnd (Client.run echoHC exClientE [.step 1000000 [exSynAck], .send [5] 0 .reliable, .disconnect .now, .step 2000000 []])
+    (fun r => match r.1.state with
+      | .closing req rt rc => decide (req = discReq ∧ rt = 2002 ∧ rc = 10 ∧ r.2.2 = [CEvent.connect, .receive [5]])
+      | _ => false) = true := by decide +kernel
+
+/-- Retry budget: 10 resends every 2 s, timeout at 22 s after entering. -/
+example : okAnd (Client.run trivHC ({ exClient with state := .closing discReq 2000 10 } : Client Unit)
+      ((List.range 12).map fun i => COp.step ((i + 1) * 2000000000) []))
+    (fun r => decide (r.2.2 = [CEvent.error .timeout] ∧ r.2.1 = List.replicate 10 discReq)) = true := by
+  decide +kernel
+
+/-- … or the acknowledgement ends it earlier with `disconnect`. -/
+example : okAnd (Client.run trivHC ({ exClient with state := .closing discReq 2000 10 } : Client Unit)
+      [.step 2000000000 [], .step 3000000000 [encode .disconnectAck], .step 90000000000 []])
+    (fun r => decide (r.2.2 = [CEvent.disconnect] ∧ r.2.1 = [discReq])) = true := by decide +kernel
+
+
+/-! ## Server
+
+Vocabulary (`Uflow/Lemmas/EndpointEventsStep.lean`): `sDiscGate hc sig h` — the condition of
+`step_active_clients` for sending the disconnect request; `discTimer cid nowMs` — the timer
+`{cid, resendDisconnect, time := nowMs + 2000, count := 10}`; `Server.stepActiveStep` — one iteration of
+`step_active_clients`. -/
+
+/-- The server-side gate, spelled out. -/
+theorem C09_sDiscGate_iff (hc : HC H) (sig : Option DisconnectMode) (h : H) :
+    sDiscGate hc sig h = true ↔ sig = some .now ∨ (sig = some .flush ∧ hc.isSendPending h = false) := by
+  unfold sDiscGate
+  cases sig with
+  | none => simp
+  | some m => cases m <;> simp
+
+/-- `C09_flush_gate` (server): one iteration of `step_active_clients` on an `active` entry sends the
+disconnect request exactly when `signal = some .now`, or `signal = some .flush ∧ isSendPending = false`;
+then the packets the half connection can deliver at that moment (`hc.receive`) are appended to the events
+(before the state changes), the entry becomes `closing`, the request is the last datagram sent, and the
+retry timer is armed with count 10, 2000 ms ahead. Otherwise the entry stays `active` (same deadline,
+same signal) and nothing is sent. On anything but an `active` entry the iteration does nothing. -/
+theorem C09_flush_gate_server (hc : HC H) (nowMs nowNs : Nat) (acc acc' : Server H × List (Nat × List Nat))
+    (hw : acc.1.WF) (cid : Nat) (h : Server.stepActiveStep hc nowMs nowNs acc cid = .ok acc') :
+    ∃ evs, acc'.1.eventsOut = acc.1.eventsOut ++ evs ∧
+      ((evs = [] ∧ acc' = acc) ∨
+       ∃ c hh t sig, acc.1.byCid cid = some c ∧ c ∈ acc.1.clients ∧ c.state = .active hh t sig ∧
+         (((sig = some .now ∨ (sig = some .flush ∧ hc.isSendPending hh = false)) ∧
+            ∃ h' pkts, hc.receive hh = .ok (h', pkts) ∧
+            evs = pkts.map (SEvent.receive c.address) ∧ acc'.2 = acc.2 ++ [(c.address, discReq)] ∧
+            acc'.1.find c.address = some { c with state := .closing } ∧
+            acc'.1.timers = tPush acc.1.timers (discTimer c.cid nowMs)) ∨
+          (¬ (sig = some .now ∨ (sig = some .flush ∧ hc.isSendPending hh = false)) ∧
+            ∃ h1 h2 pkts, hc.step hh nowNs = .ok h1 ∧ hc.receive h1 = .ok (h2, pkts) ∧
+            evs = pkts.map (SEvent.receive c.address) ∧ acc'.2 = acc.2 ∧
+            acc'.1.find c.address = some { c with state := .active h2 t sig }))) := by
+  obtain ⟨evs, t, hcase⟩ := Server.stepActiveStep_STr hc nowMs nowNs acc acc' hw cid h
+  refine ⟨evs, t.events, ?_⟩
+  rcases hcase with hx | ⟨c, hh, tt, sig, hb, hcm, hst, hc2⟩
+  · exact Or.inl hx
+  · refine Or.inr ⟨c, hh, tt, sig, hb, hcm, hst, ?_⟩
+    rcases hc2 with ⟨hg, hx⟩ | ⟨hg, hx⟩
+    · exact Or.inl ⟨(C09_sDiscGate_iff hc sig hh).mp hg, hx⟩
+    · refine Or.inr ⟨fun hcon => ?_, hx⟩
+      rw [(C09_sDiscGate_iff hc sig hh).mpr hcon] at hg
+      cases hg
+
+/-- `C09_retry_budget` (server), the timer chain — PARTIAL (per-transition form). The
+`resendDisconnect` timer armed on entering `closing` (`C09_flush_gate_server`: count 10, after the request
+has been sent once) behaves as follows when it fires for an entry that is still `closing`:
+* count `k > 0`: the request is sent once more and the timer re-armed with count `k - 1`, 2000 ms later;
+* count `0`: no request; the entry gets exactly one `error timeout` and is removed from the map.
+So the chain of firings sends the request at most 10 more times (`1 + 10` in total) and ends with the
+timeout, unless the entry left `closing` before. -/
+theorem C09_retry_budget_server_partial (s : Server H) (t : Timer) (nowMs : Nat) (c : RClient H)
+    (hb : s.byCid t.cid = some c) (hst : c.state = .closing) (hk : t.kind = .resendDisconnect) :
+    (t.count > 0 → s.handleTimer t nowMs =
+      ({ s with timers := tPush s.timers { t with count := t.count - 1, time := nowMs + SERVER_DISCONNECT_RESEND_INTERVAL_MS } },
+       [(c.address, discReq)])) ∧
+    (t.count = 0 → s.handleTimer t nowMs =
+      (({ s with eventsOut := s.eventsOut ++ [SEvent.error c.address .timeout] } : Server H).finish c, [])) :=
+  Server.handleTimer_closing s t nowMs c hb hst hk
+
+/-- … and a timer that fires after its entry has left `closing` (closed by `disconnect`/`disconnectAck`,
+dropped, or gone) does nothing: no request, no event (`C08`: nothing is emitted for that connection
+afterwards). -/
+theorem C09_stale_timer_noop (s : Server H) (t : Timer) (nowMs : Nat) (hk : t.kind = .resendDisconnect)
+    (h : s.byCid t.cid = none ∨ ∃ c, s.byCid t.cid = some c ∧ c.state ≠ .closing) :
+    s.handleTimer t nowMs = (s, []) := by
+  apply Server.handleTimer_stale
+  rcases h with h | ⟨c, hb, hnc⟩
+  · exact Or.inl h
+  · refine Or.inr ⟨c, hb, ?_⟩
+    cases hst : c.state with
+    | pending ln rn r al rb => exact Or.inr (Or.inr (Or.inr (Or.inr ⟨⟨_, _, _, _, _, rfl⟩, by rw [hk]; decide⟩)))
+    | active hh tt sig => exact Or.inr (Or.inl ⟨_, _, _, rfl⟩)
+    | closing => exact absurd hst hnc
+    | closed => exact Or.inr (Or.inr (Or.inr (Or.inl ⟨rfl, by rw [hk]; decide⟩)))
+    | fin => exact Or.inl rfl
+
+/-- The terminal event of a `closing` entry, exactly once: the only transitions out of `closing` are
+the acknowledgement / crossing request (one `disconnect`, `C08_server_handleDisconnectAck` /
+`C08_server_handleDisconnect`), the exhausted timer (one `error timeout`, above) and the application's
+`drop`; the monitor theorem `C08_server_stream` then guarantees that nothing else is delivered for that
+address until a new `connect`. Stated here for the two frame handlers. -/
+theorem C09_closing_terminal_event_server (hc : HC H) (s : Server H) (hw : s.WF) (addr nowMs : Nat) (c : RClient H)
+    (hf : s.find addr = some c) (hst : c.state = .closing) :
+    (∃ s', s.handleDisconnect hc addr nowMs = .ok (s', [(addr, discAck)]) ∧
+      s'.eventsOut = s.eventsOut ++ [SEvent.disconnect addr] ∧
+      s'.find addr = some { c with state := .closed }) ∧
+    ((s.handleDisconnectAck addr).eventsOut = s.eventsOut ++ [SEvent.disconnect addr] ∧
+      (s.handleDisconnectAck addr).find addr = none) := by
+  obtain ⟨hcm, hca⟩ := Server.find_some hf
+  constructor
+  · have e : s.handleDisconnect hc addr nowMs = .ok
+        (({ (s.put { c with state := .closed }) with
+            eventsOut := (s.put { c with state := .closed }).eventsOut ++ [SEvent.disconnect addr],
+            timers := tPush (s.put { c with state := .closed }).timers { cid := c.cid, kind := .closedTimeout, time := nowMs + SERVER_CLOSED_TIMEOUT_MS, count := 0 } } : Server H),
+         [(addr, discAck)]) := by
+      unfold Server.handleDisconnect; rw [hf]; simp only [hst]
+    refine ⟨_, e, ?_, ?_⟩
+    · rw [Server.put_state_eq hcm]
+    · have h1 : ∀ a, Server.find ({ (s.put { c with state := .closed }) with
+            eventsOut := (s.put { c with state := .closed }).eventsOut ++ [SEvent.disconnect addr],
+            timers := tPush (s.put { c with state := .closed }).timers { cid := c.cid, kind := .closedTimeout, time := nowMs + SERVER_CLOSED_TIMEOUT_MS, count := 0 } } : Server H) a =
+          (s.put { c with state := .closed }).find a := fun _ => rfl
+      rw [h1, Server.find_put (c' := { c with state := .closed }) hw hcm rfl rfl, if_pos hca.symm]
+  · have e : s.handleDisconnectAck addr =
+        ({ s with eventsOut := s.eventsOut ++ [SEvent.disconnect addr] } : Server H).finish c := by
+      unfold Server.handleDisconnectAck; rw [hf]; simp only [hst]
+    rw [e]
+    have hcm' : c ∈ ({ s with eventsOut := s.eventsOut ++ [SEvent.disconnect addr] } : Server H).clients := hcm
+    refine ⟨by rw [Server.finish_eq hcm'], ?_⟩
+    rw [Server.find_finish, if_pos hca.symm]
+
+
+/-! ### The server's retry budget along runs
+
+Vocabulary (`Uflow/Lemmas/EndpointEventsTimers.lean`, `…Budget.lean`): `Server.TIe` — the timer invariant
+"no `resendDisconnect` timer exists for the identity of an entry that is still `pending`/`active`, and
+all timer identities are below `nextCid`"; `Trk s a cid n` — the entry of address `a` is the object
+`cid`, it is `closing`, the heap holds exactly one `resendDisconnect` timer of `cid`, and its count is
+`n`; `Left s cid` — the object `cid` is no longer `closing` (nor `pending`/`active`) in the map, for
+good; `cntReq a sent` — number of datagrams `(a, discReq)` in `sent`. The heap (`tPush`/`tPop`) is
+proved to be a multiset of timers (`tPush_perm`, `tPop_perm` in `EndpointEventsHeap.lean`). -/
+
+/-- The timer invariant holds in every reachable state. -/
+theorem C09_server_timer_invariant (hc : HC H) (cfg : SrvConfig) (now : Nat) (rng : Rng) (ops : List SOp)
+    (s' : Server H) (sent : List (Nat × List Nat)) (ls : List SLabel)
+    (h : Server.run hc (Server.init cfg now rng) ops = .ok (s', sent, ls)) : s'.TIe :=
+  Server.run_TIe hc ops _ s' (Server.WF.init cfg now rng) rfl (Server.TIe.init cfg now rng) sent ls h
+
+/-- Entering `closing` (the gate of `step_active_clients`, from a well-formed state satisfying the timer
+invariant) sends the request once and starts the budget: the new `closing` entry has exactly one retry
+timer, of count 10. -/
+theorem C09_enter_closing_server (hc : HC H) (nowMs nowNs : Nat) (acc acc' : Server H × List (Nat × List Nat))
+    (hw : acc.1.WF) (hi : acc.1.TIe) (cid0 : Nat) (h : Server.stepActiveStep hc nowMs nowNs acc cid0 = .ok acc')
+    (c : RClient H) (hh : H) (t : Nat) (sig : Option DisconnectMode) (hb : acc.1.byCid cid0 = some c)
+    (hst : c.state = .active hh t sig) (hg : sDiscGate hc sig hh = true) :
+    Trk acc'.1 c.address c.cid SERVER_DISCONNECT_RESEND_COUNT ∧ acc'.2 = acc.2 ++ [(c.address, discReq)] :=
+  Server.stepActiveStep_enter_Trk hc nowMs nowNs acc acc' hw hi cid0 h c hh t sig hb hst hg
+
+/-- `C09_retry_budget` (server), run level: take any well-formed state (empty event buffer, timer
+invariant) in which the entry of `a` is the object `cid`, `closing`, with its unique retry timer at count
+`n` (right after entering: `n = 10`, and the request has been sent once). After ANY run, either
+* the same object is still `closing` with its unique timer at count `n'`, and
+  `(requests sent to a during the run) + n' = n` — so at most `n` (≤ 10) more requests, `1 + 10` in total; or
+* the object has left `closing` for good (by `disconnect`/`disconnectAck` → one `disconnect` event, by the
+  timer firing at count 0 → one `error timeout`, exactly when all `n` re-sends have happened, or by `drop`);
+  by `C08_server_stream` nothing more is delivered for that connection. -/
+theorem C09_retry_budget_server (hc : HC H) (ops : List SOp) (s s' : Server H) (hw : s.WF) (he : s.eventsOut = [])
+    (hi : s.TIe) (a cid n : Nat) (hk : Trk s a cid n) (sent : List (Nat × List Nat)) (ls : List SLabel)
+    (h : Server.run hc s ops = .ok (s', sent, ls)) :
+    (∃ n', Trk s' a cid n' ∧ cntReq a sent + n' = n) ∨ Left s' cid :=
+  (Server.run_KStep hc ops s s' hw he hi a cid sent ls h).1 n hk
+
+/-- Once the object has left `closing` it never comes back (in any run). -/
+theorem C09_left_forever_server (hc : HC H) (ops : List SOp) (s s' : Server H) (hw : s.WF) (he : s.eventsOut = [])
+    (hi : s.TIe) (cid : Nat) (hl : Left s cid) (sent : List (Nat × List Nat)) (ls : List SLabel)
+    (h : Server.run hc s ops = .ok (s', sent, ls)) : Left s' cid :=
+  hl.of_TStep (Server.run_KStep hc ops s s' hw he hi 0 cid sent ls h).2
+
+/-- One firing of the (unique) retry timer of the tracked object: with count `n > 0` exactly one request
+goes to `a` and the count becomes `n - 1`; with count `0` the object leaves (`error timeout`, see
+`C09_retry_budget_server_partial`); a firing of any other timer sends nothing to `a`. -/
+theorem C09_timer_firing_server (s : Server H) (hw : s.WF) (a cid : Nat) (t : Timer) (h' : Array Timer)
+    (hp : tPop s.timers = some (t, h')) (nowMs n : Nat) (hk : Trk s a cid n) :
+    (∃ n', Trk (({ s with timers := h' } : Server H).handleTimer t nowMs).1 a cid n' ∧
+      cntReq a (({ s with timers := h' } : Server H).handleTimer t nowMs).2 + n' = n) ∨
+    Left (({ s with timers := h' } : Server H).handleTimer t nowMs).1 cid :=
+  Server.timerIter_KStep s hw a cid t h' hp nowMs n hk
+
+/-! ### Non-vacuity (server) -/
+
+/-- Hypotheses of `C09_retry_budget_server`: a reachable state in which address 5 (object 0) is `closing`
+and tracked with count 10. -/
+example : ∃ s : Server Unit, s.WF ∧ s.eventsOut = [] ∧ s.TIe ∧ Trk s 5 0 10 := by
+  obtain ⟨⟨s, sent, ls⟩, h, hp⟩ := okAnd_elim
+    (r := Server.run trivHC exServer [.step 1000000 [(5, exSyn)], .step 2000000 [(5, exHsAck)], .disconnect 5 .now, .step 3000000 []])
+    (p := fun r => (match r.1.find 5 with
+        | some c => c.cid == 0 && (match c.state with | .closing => true | _ => false)
+        | none => false) && (rdCount r.1.timers 0 == 1 &&
+      r.1.timers.toList.all (fun t => !isRD 0 t || t.count == 10))) (by decide +kernel)
+  obtain ⟨hwf, he, -⟩ := Server.run_monitor trivHC _ exServer s (Server.WF.init _ _ _) rfl sent ls h
+  have hti := Server.run_TIe trivHC _ exServer s (Server.WF.init _ _ _) rfl (Server.TIe.init _ _ _) sent ls h
+  rw [Bool.and_eq_true, Bool.and_eq_true] at hp
+  obtain ⟨hp1, hp2, hp3⟩ := hp
+  refine ⟨s, hwf, he, hti, hwf, ?_, by simpa using hp2, fun t ht hrd => ?_⟩
+  · simp only at hp1
+    cases hf : s.find 5 with
+    | none => rw [hf] at hp1; cases hp1
+    | some c =>
+      rw [hf] at hp1
+      simp only [Bool.and_eq_true, beq_iff_eq] at hp1
+      refine ⟨c, rfl, hp1.1, ?_⟩
+      have h2 := hp1.2
+      cases hst : c.state <;> rw [hst] at h2 <;> first | rfl | cases h2
+  · rw [List.all_eq_true] at hp3
+    have := hp3 t ht
+    rw [hrd] at this
+    simpa using this
+
+
+/-- Flush gate: a `now` disconnect fires in the next step; the retries follow every 2 s (the request is
+sent 11 times in total: datagrams 3..13 of the run), then `error timeout` at 22 s. -/
+example : okAnd (Server.run trivHC exServer
+      ([.step 1000000 [(5, exSyn)], .step 2000000 [(5, exHsAck)], .disconnect 5 .now, .step 3000000 []] ++
+       (List.range 12).map fun i => SOp.step (3000000 + (i + 1) * 2000000000) []))
+    (fun r => decide (r.2.2 = [SLabel.ev (.connect 5), .ev (.error 5 .timeout)] ∧
+      (r.2.1.filter (· == (5, discReq))).length = 11)) = true := by decide +kernel
+
+/-- … or the acknowledgement ends it earlier with `disconnect`. -/
+example : okAnd (Server.run trivHC exServer
+      [.step 1000000 [(5, exSyn)], .step 2000000 [(5, exHsAck)], .disconnect 5 .now, .step 3000000 [],
+       .step 2003000000 [], .step 2004000000 [(5, encode .disconnectAck)], .step 90000000000 []])
+    (fun r => decide (r.2.2 = [SLabel.ev (.connect 5), .ev (.disconnect 5)] ∧
+      (r.2.1.filter (· == (5, discReq))).length = 2)) = true := by decide +kernel
+
+/-- A `flush` disconnect waits while the half connection reports pending data. -/
+example : okAnd (Server.run echoHC exServerE
+      [.step 1000000 [(5, exSyn)], .step 2000000 [(5, exHsAck)], .send 5 [1] 0 .reliable, .disconnect 5 .flush])
+    (fun r => match r.1.find 5 with
+      | some c => (match c.state with | .active h _ sig => echoHC.isSendPending h && sig == some .flush | _ => false)
+      | none => false) = true := by decide +kernel
 
 end Uflow.Props.C09
